@@ -1,7 +1,15 @@
 ------------------------------- MODULE MonC02 -------------------------------
-(* C02, engine-run half: every packet the engine emits is decodable by the independent reference
-   decoder and carries what the application supplied.  (Layouts, arithmetic and fragmentation
-   independence are decided by Codec.tla / EncoderSteps.tla and the codec conformance check.) *)
+(* C02 - outbound packets are spec-conformant and carry exactly what the user supplied.
+
+   Engine runs: every packet the engine emits (Tx) is decodable by the independent reference decoder
+   and carries what the application submitted.
+   Codec runs: one Enc event per case of the enumeration TLC made from Codec.tla (every client packet
+   kind, flag combination, property subset, boundary length).  The case was built through the public
+   builders and encoded by the crate's resumable encoder under many buffer-capacity sequences:
+     outputs    number of distinct byte strings the capacity sequences produced (must be one)
+     decodable  the reference decoder (itself checked against Codec.tla's bytes) accepts the bytes
+     matched    ... and recovers exactly the abstract content of the case
+     error / panics   the encoder refused the packet / panicked *)
 EXTENDS MonBase
 
 Init0 == [run |-> 0, skip |-> FALSE, errs |-> <<>>,
@@ -20,5 +28,12 @@ Apply(m, e) ==
                      ELSE IF e.type # "PUBLISH" /\ e.n # o.entries THEN Breach(m, e, "content-mismatch")
                      ELSE IF o.hash # 0 /\ e.hash # o.hash THEN Breach(m, e, "content-mismatch")
                      ELSE m
+           [] e.ev = "Enc" ->
+                  IF e.panics > 0 THEN [Breach(m, e, "panic") EXCEPT !.skip = FALSE]
+                  ELSE IF e.outputs = 0 THEN [Breach(m, e, "not-encodable") EXCEPT !.skip = FALSE]
+                  ELSE IF e.outputs > 1 THEN [Breach(m, e, "fragmentation") EXCEPT !.skip = FALSE]
+                  ELSE IF e.decodable = 0 THEN [Breach(m, e, "not-decodable") EXCEPT !.skip = FALSE]
+                  ELSE IF e.matched = 0 THEN [Breach(m, e, "content-mismatch") EXCEPT !.skip = FALSE]
+                  ELSE m
            [] OTHER -> m
 =============================================================================
